@@ -19,7 +19,6 @@ import (
 	"sort"
 	"strconv"
 	"strings"
-	"unicode/utf8"
 
 	"google.golang.org/genproto/googleapis/rpc/status"
 	"google.golang.org/protobuf/encoding/protojson"
@@ -127,7 +126,14 @@ func compressBytes(name string, data []byte) []byte {
 
 var errUnknownCompression = errors.New("unknown compression")
 
+// decompressBytes inflates data. A zero-length input is accepted as the empty
+// payload: with nothing to decode, "Content-Encoding: x" over zero bytes is
+// handled the same by every HTTP stack we know of (lenient by design, see
+// DESIGN.md appendix B).
 func decompressBytes(name string, data []byte) ([]byte, error) {
+	if len(data) == 0 && (name == CompGzip || name == CompDeflate) {
+		return []byte{}, nil
+	}
 	switch name {
 	case CompGzip:
 		r, err := gzip.NewReader(bytes.NewReader(data))
@@ -448,9 +454,6 @@ func parseGRPCStatus(h http.Header) (present bool, e *ErrSpec, problems []string
 	if !ok {
 		problems = append(problems, "grpc-message is not validly percent-encoded")
 	}
-	if !utf8.ValidString(msg) {
-		problems = append(problems, "grpc-message does not decode to UTF-8")
-	}
 	e.Message = msg
 	if d := h.Get("Grpc-Status-Details-Bin"); d != "" {
 		raw, err := b64Any(d)
@@ -466,7 +469,8 @@ func parseGRPCStatus(h http.Header) (present bool, e *ErrSpec, problems []string
 		if int64(st.GetCode()) != e.Code {
 			problems = append(problems, fmt.Sprintf("grpc-status %d disagrees with details-bin code %d", e.Code, st.GetCode()))
 		}
-		if st.GetMessage() != e.Message {
+		// header field values cannot carry leading/trailing whitespace: compare modulo OWS
+		if strings.TrimSpace(st.GetMessage()) != strings.TrimSpace(e.Message) {
 			problems = append(problems, fmt.Sprintf("grpc-message %q disagrees with details-bin message %q", e.Message, st.GetMessage()))
 		}
 		for _, a := range st.GetDetails() {
